@@ -1,6 +1,7 @@
 import ScrapliModel.Lemmas.Timeout
 import ScrapliModel.Props.C01
 import ScrapliModel.Generated.Consts
+import ScrapliModel.Generated.BodiesTimeout
 /-!
 # C05 — Every blocking operation honours its timeout
 
@@ -378,5 +379,16 @@ example :
     ¬ x.cmd.Sublist (leftover ++ x.echo).flatten.dropLast ∧
     x.resp.flatten ≠ [] ∧ ExactAt (promptPred exCfg) x.resp.flatten := by
   decide
+
+/-! ## tie to the source: translated body = model (regenerated on every run) -/
+
+/-- the body of `(*Channel).GetTimeout` as the translator renders it from the current source
+(`Generated/BodiesTimeout.lean`) is `getTimeout` with `maxT = util.MaxTimeout * time.Second`, for
+all `TimeoutOps` and all arguments -/
+theorem generated_getTimeout_eq (ops t : Int) :
+    Gen.Bodies.Timeout.getTimeout ops t
+      = getTimeout ops ((Gen.Util.MaxTimeout : Int) * 1000000000) t := by
+  unfold Gen.Bodies.Timeout.getTimeout getTimeout
+  by_cases h1 : t = -1 <;> by_cases h0 : t = 0 <;> simp [h1, h0]
 
 end Scrapli.Timeout.C05
